@@ -10,7 +10,10 @@ Select returned for ring points, their neighbours, 0, 2^32-1 and random codes af
 TLC judges every answer with Lookup / ModLookup, the differential statements and the agreement of histories
 on the real answers, and classifies mismatches with the implementation's named deviations.
 Both tiers include an end-to-end run: scripted TCP servers on distinct loopback hosts, calls made with
-current.SetClientHash through a real ServantProxy, the receiving server judged by the same oracle.
+current.SetClientHash through a real ServantProxy, the receiving server judged by the same oracle -- over direct
+endpoint lists, and over registry-fed proxies whose endpoints are blocked by the manager's status check after five
+unanswered calls and recover after an answered probe (the manager then edits its active list and calls Remove / Add on
+its selectors): the history judged is refresh(installed), remove(e), add(e), ... (harness/cmd/ringdrive/e2e_mgr.go).
 """
 import json
 import os
@@ -18,7 +21,7 @@ import random
 from concurrent.futures import ThreadPoolExecutor
 
 from lib import gobuild, tlc
-from lib.core import Inconclusive, sh
+from lib.core import Inconclusive, load_known, sh
 
 SPEC = "HashRing"
 
@@ -168,7 +171,8 @@ def run(ctx):
     hists = load_ndjson(os.path.join(out, "hists.ndjson"))
     # end to end: scripted TCP servers, real ServantProxy, calls made with current.SetClientHash
     rc, so, se = sh([exe, "e2e", "-seed", str(ctx.seed), "-out", out, "-first-u", str(len(unis) + 1),
-                     "-first-h", str(len(hists) + 1), "-scenarios", str(ctx.pick(3, 12))], timeout=300, check=False)
+                     "-first-h", str(len(hists) + 1), "-scenarios", str(ctx.pick(3, 12)),
+                     "-mgr-scenarios", str(ctx.pick(3, 10))], timeout=420, check=False)
     e2e_failed = None
     if rc != 0:
         # the end-to-end driver could not complete (e.g. the tree routes a call to a non-endpoint): the selector-level
@@ -177,6 +181,14 @@ def run(ctx):
         e2e_meta = {"failed": e2e_failed[-400:]}
     else:
         e2e_meta = json.load(open(os.path.join(out, "e2e_meta.json")))
+        rg = e2e_meta.get("registry", {})
+        if e2e_meta.get("registry_errors"):
+            # a registry-fed scenario could not be completed (say, an endpoint could not be made to fail because the calls
+            # meant for it went elsewhere): what was recorded until then is judged; inconclusive if that finds nothing
+            e2e_failed = "registry-fed end-to-end scenarios could not be completed:\n" + "\n".join(e2e_meta["registry_errors"][:6])
+        elif rg.get("endpoint_blocked", 0) < 4 or rg.get("endpoint_recovered", 0) < 4:
+            raise Inconclusive("vacuous end-to-end run: the registry-fed scenarios blocked %s and recovered %s endpoints"
+                               % (rg.get("endpoint_blocked"), rg.get("endpoint_recovered")))
         unis += load_ndjson(os.path.join(out, "e2e_unis.ndjson"))
         hists += load_ndjson(os.path.join(out, "e2e_hists.ndjson"))
     nlook = sum(len(st["ans"]) for h in hists for st in h["steps"])
@@ -244,6 +256,10 @@ def run(ctx):
         sig = signature(b, uni, res["cols"][h["u"] - 1])
         if h["label"].startswith("e2e"):
             sig = sig.replace("C14:", "C14:e2e:", 1)
+        if h["label"].startswith("e2e-mgr"):
+            # registry-fed proxy: name what the endpoint manager did last (wording only; the judgement is TLC's)
+            sig += {"remove": ":after-endpoint-blocked", "add": ":after-endpoint-recovered"}.get(h["steps"][b["k"] - 1]["op"],
+                                                                                                 ":after-registry-refresh")
         by_sig.setdefault(sig, []).append(b)
         what = describe(b, uni, h)
         if b["cls"] == "kf-collision":
@@ -282,7 +298,9 @@ def run(ctx):
         b = bs[0]
         samples.append({"kind": "flagged", "signature": sig, "what": describe(b, unis[hists[b["h"] - 1]["u"] - 1], hists[b["h"] - 1]), "count": len(bs)})
     distinct = {(h["u"], tuple(sorted(st["list"])), i, a) for h in hists for st in h["steps"] for i, a in enumerate(st["ans"])}
-    if e2e_failed and not ctx.violations:
+    open_known = {k["signature"] for k in load_known() if k.get("property") == "C14" and k.get("status") == "open"}
+    if e2e_failed and not [v for v in ctx.violations if v.signature not in open_known]:
+        # (a known finding seen on the way does not make up for the part of the run that did not happen)
         raise Inconclusive(e2e_failed)
     ctx.coverage = {
         "states": mc_states + rmain.distinct,
